@@ -106,6 +106,32 @@ def _packed(case):
         if v["key"] not in have:
             v["key"] += ":keywords-reversed"
             viols.append(v)
+    # the same cells arranged as grids (incl. one with as many rows as there are inputs) and as a rank-3 block: cell-wise commands give the
+    # vector result reshaped
+    if res[0] == "ok" and isinstance(res[1], numpy.ndarray) and len(tuples) > 1:
+        N = len(tuples)
+        shapes = []
+        for r in (n, 2, 3, 5):
+            if r > 1 and N % r == 0 and (r, N // r) not in shapes:
+                shapes.append((r, N // r))
+        f = next((d for d in (2, 3, 5) if N % (d * d) == 0), None)
+        if f:
+            shapes.append((f, f, N // (f * f)))
+        if not shapes:
+            shapes = [(1, N)]
+        flat = numpy.ma.asarray(res[1])
+        fm = numpy.ma.getmaskarray(flat)
+        for shp in shapes[:3]:
+            rg = D.execute(op, [D.mk_array(c, dtype=d, shape=shp) for c, d in zip(cols, dts)], params)
+            ok = rg[0] == "ok" and isinstance(rg[1], numpy.ndarray) and tuple(rg[1].shape) == shp
+            if ok:
+                g = numpy.ma.asarray(rg[1]).reshape(N)
+                gm = numpy.ma.getmaskarray(g)
+                ok = bool((gm == fm).all()) and bool(numpy.array_equal(g.filled(0), flat.filled(0)))
+            if not ok:
+                what = "raised %s" % D.error_name(rg[1]) if rg[0] != "ok" else "differs from the vector result"
+                viols.append(V("C07:%s:grid-differs-from-vector" % op, "%s %r on inputs of shape %r %s" % (op, params, shp, what), **dict(tag, shape=list(shp))))
+                break
     # key must distinguish the dtype order for raised errors (Sum([int,float]) vs Sum([float,int]))
     for v in viols:
         if ":raised:" in v["key"] or ":mask-dropped" in v["key"]:
